@@ -14,7 +14,7 @@ KeyB(k) == CASE k = "S" -> <<83>> [] k = "X-Renamed" -> <<88, 45, 82, 101, 110, 
              [] k = "Architectures" -> <<65, 114, 99, 104, 105, 116, 101, 99, 116, 117, 114, 101, 115>>
              [] k = "Checksums-Sha256" -> <<67, 104, 101, 99, 107, 115, 117, 109, 115, 45, 83, 104, 97, 50, 53, 54>>
              [] k = "Req-V" -> <<82, 101, 113, 45, 86>> [] k = "Name" -> <<78, 97, 109, 101>> [] k = "Count" -> <<67, 111, 117, 110, 116>>
-             [] k = "Tags" -> <<84, 97, 103, 115>> [] k = "-" -> <<45>> [] k = "" -> <<>>
+             [] k = "Tags" -> <<84, 97, 103, 115>> [] k = "-" -> <<45>> [] k = "" -> <<>> [] k = "Z" -> <<90>>
 
 EmptyRaw == [order |-> <<>>, values |-> <<>>]
 
@@ -37,14 +37,14 @@ JudgeRT(rec) ==
         val == rec.in.value
         exp == UpdatePara(EmptyRaw, Written(desc, val, KeyB))
         skipped == SelectSeq(desc, LAMBDA d : d.key = "-")
-    IN Checks(rec.in.type,
+    IN Guarded(rec.in.type,
        << <<~rec.panic, "marshalling a supported type panicked">>,
-          <<rec.marshal_ok, "Marshal failed on a supported type">>,
-          <<ParaIs(rec.para, exp), "marshalled paragraph: wrong fields, order, omission of optional empty fields or presence of required ones">>,
+          <<rec.marshal_ok, "Marshal failed on a supported type">> >>,
+       << <<ParaIs(rec.para, exp), "marshalled paragraph: wrong fields, order, omission of optional empty fields or presence of required ones">>,
           <<BytesDenote(rec.bytes, exp), "written bytes do not denote the expected fields">>,
           <<rec.unmarshal_ok, "Unmarshal rejected the marshalled text">>,
           <<rec.unmarshal_ok => SameValue(desc, rec.decoded, val), "unmarshalling the marshalled text does not reproduce the value">>,
-          <<\A k \in 1..Len(skipped) : rec.decoded[skipped[k].name] = <<>>, "a skipped field was decoded">>,
+          <<rec.unmarshal_ok => \A k \in 1..Len(skipped) : rec.decoded[skipped[k].name] = <<>>, "a skipped field was decoded">>,
           <<rec.unmarshal_ok => (rec.redecode_ok /\ SameValue(desc, rec.redecoded, val)),
             "unmarshalling the same text again into the struct that already holds the value does not reproduce the value">> >>)
 
